@@ -77,5 +77,7 @@ def run(ctx):
     sites = list(pC24.emitters(ctx, names, domain))
     fam, guard = pC24.rule_families(ctx, sites, kinds, domain)
     g3, g4 = pC24.rule_labels(ctx)
+    from ..rules import sC24
     return [pC24.rule_arity(ctx, sites), fam, guard, pC24.rule_proto_def(ctx), pC24.rule_order(ctx, sites),
-            pC24.rule_sections(ctx, sites, domain), pC24.rule_raise_exit(ctx, sites, domain), g3, g4, pC24.rule_flags(ctx)]
+            pC24.rule_sections(ctx, sites, domain), pC24.rule_raise_exit(ctx, sites, domain), g3, g4, pC24.rule_flags(ctx),
+            sC24.rule_kw2(ctx)]
